@@ -156,6 +156,7 @@ CHECKS = {
     "C10": dict(
         pkg="./c10", level="exploration",
         runs=[
+            dict(name="failedcommit", run="^TestPropFailedCommit$", checks=(150, 1500), shards=(2, 8), shrinktime="10s"),
             dict(name="writers", run="^TestPropConcurrentWriters$", checks=(150, 1500), shards=(2, 8), shrinktime="10s"),
             dict(name="mock", run="^TestPropMock$", checks=(8000, 50000), shards=(4, 16), shrinktime="15s"),
             dict(name="pairs", run="^TestExhaustivePairs$", shards=(2, 4)),
